@@ -100,6 +100,43 @@ CHECKS = {
               "supercells, q-lists <= 3 points, meshes <= 12 irreducible points; band connection 3x3 entries -2..2, 4x4 "
               "-1..1; files compared to half a unit of the last printed digit."),
         design="5/C14 and 11.2"),
+    "C10": dict(
+        text=("Thermal.tla is an exact model of which harmonic-oscillator terms each code path adds up and with which "
+              "weights (compiled kernel plus _run_c_thermal_properties; Python mode_* through _calculate_thermal_property; "
+              "the projection branch). TLC checks it exhaustively over all flag combinations and mode classes against the "
+              "documented definition: modes above the cutoff only, F(T=0) = zero-point energy, S = C_V = 0 at T = 0, "
+              "division by the sum of weights, band-index and projection bookkeeping, classical dispatch, mode counts, "
+              "C == Python. Real runs on a decodable frequency realisation are projected to integer coefficient signatures "
+              "and TLC evaluates the requirement on them (ThermalTrace) and identifies which modelled variant of the code "
+              "is present; the ReqRecord computed by TLC is interpreted with stable closed forms (own constants, "
+              "cross-checked against 50-digit decimal) on spectra with h nu/kT from 1e-12 to 1e5 and compared with "
+              "ThermalProperties.run in both languages and Phonopy.run_thermal_properties. ThermalIEEE.tla decides "
+              "finiteness of every coded expression tree over 2099 x-classes in an IEEE abstract domain, validated by "
+              "sampling the real kernels in every class; ThermalIdentities.tla has TLC decide S = -dF/dT, C_V = T dS/dT, "
+              "sign, monotonicity and the Dulong-Petit limit on logged rows."),
+        note=("Trusted: numpy/decimal for exp, log, expm1; the least-squares decode (residual logged, worst 1e-10); leaf "
+              "enclosures of ThermalIEEE (validated by sampling, not proven). Bounds: exhaustive model nq <= 2, nb <= 3, "
+              "levels {-1,0,1,2}; finiteness claim for 2^-40 <= x <= 2^23, 1e-3 K <= T <= 1e4 K; replay tolerances 1e-10 "
+              "(x >= 1e-3) to 1e-4 (x < 1e-6) relative; identities 1e-6..1e-2 N k_B."),
+        design="5/C10 and 11.2"),
+    "C20": dict(
+        text=("Eos.tla writes Vinet, Birch-Murnaghan and Murnaghan once, as expression trees in textbook form; TLC "
+              "evaluates each tree to its exact rational 3-jet at V0 and checks E(V0)=E0, P(V0)=0, V E''=B0 and dB/dP=B0' "
+              "for every rational parameter set. EosTrace evaluates the same clauses on the Taylor jet measured on "
+              "phonopy's real get_eos() by a Cauchy integral and compares the real function pointwise with the interpreted "
+              "tree. Qha.tla models PhonopyQHA/BulkModulus/QHA.run as a step machine over rational tables with the "
+              "non-linear fit uninterpreted (Fit(row)=p iff the formal row cancels to Curve(p)) and unit factors as exponent "
+              "vectors; TLC checks length and index safety for every (grid, t_max), per-temperature electronic rows, +PV "
+              "with the SI-derived unit, recovery of V0/E0/B0, and the finite-difference stencils, over a TLC-enumerated "
+              "grid family. Every input is realised as exact EOS curves, run through the real PhonopyQHA (real scipy fit, "
+              "or stub = the specification's Fit), projected to rationals and judged by TLC in QhaTrace (14 Impl and 6 "
+              "Conforms clauses); corrupted-event controls must be rejected on every run."),
+        note=("Trusted: TLC; the harness tree interpreter (IEEE doubles); the Cauchy-integral jet measurement; projection "
+              "onto the denominators of TLC's expected values; EV and Avogadro of units.py as base constants; "
+              "monkeypatching core.fit_to_eos to observe rows; fit convergence assumed (0 failures in 4000 real fits). "
+              "Bounds: B0' != 1; rational parameter grids; 1-8 temperatures (12 thorough); 5-11 volumes; shapes (V) and "
+              "(T,V); six pressures."),
+        design="5/C20 and 11.2"),
 }
 
 NOT_BUILT = "check under construction in this round; not yet claimed"
